@@ -648,6 +648,27 @@ pub fn check_case(ctx: &mut Ctx, case: &Case, cfg: &Cfg, props: &[String], want_
                         if in_unsolved {
                             v.detail.push_str(unsolved_site);
                         }
+                        // the violating token is the `[` of an attribute whose `]` is followed by a conditional directive (F25)
+                        if v.clause == "depth" {
+                            if let Some(ord) = v.detail.find("(plain token ").and_then(|p| v.detail[p + 13..].split(')').next().and_then(|n| n.parse::<usize>().ok())) {
+                                if let Some(t) = plain.get(ord) {
+                                    if t.text(&out) == "[" {
+                                        if let Some(k) = tout.iter().position(|x| x.start == t.start) {
+                                            let mut depth = 0i32;
+                                            let mut j = k;
+                                            while j < tout.len() {
+                                                match tout[j].text(&out) { "[" => depth += 1, "]" => { depth -= 1; if depth == 0 { break; } } _ => {} }
+                                                j += 1;
+                                            }
+                                            let next = ((j + 1)..tout.len()).find(|&x| !tout[x].is_comment());
+                                            if next.is_some_and(|x| tout[x].kind.starts_with("ConditionalDirective(")) {
+                                                v.detail.push_str(" [site: attribute followed by a conditional directive]");
+                                            }
+                                        }
+                                    }
+                                }
+                            }
+                        }
                         // the opener is `strict <comment> private|protected`: the comment hides the visibility keyword from the
                         // parser's look-ahead and `strict` is taken for a name (known finding F21)
                         if let Some(ro) = v.detail.find("[opener ").and_then(|p| v.detail[p + 8..].split(']').next().and_then(|n| n.parse::<usize>().ok())) {
